@@ -73,6 +73,7 @@ macro_rules! dispatch {
             "C04" => $f::<props::c04::C04>($($args),*),
             "C05" => $f::<props::c05::C05>($($args),*),
             "C06" => $f::<props::c06::C06>($($args),*),
+            "C07" => $f::<props::c07::C07>($($args),*),
             "C09" => $f::<props::c09::C09>($($args),*),
             "C10" => $f::<props::c10::C10>($($args),*),
             "C11" => $f::<props::c11::C11>($($args),*),
